@@ -148,6 +148,10 @@ func c19Gen(c *Ctx) {
 		}
 		if !a.well {
 			c.Count("malformed_no_panic", 1)
+			// "each counts a request as one unit": whatever token comes back without an error, the amount is 1
+			if err == nil && amt != 1 {
+				c.Violation("clientip/amount", sfmt("client.ip on RemoteAddr %q gave token %q without an error but counts the request as %d units, want 1", a.addr, tok, amt), map[string]any{"remote_addr": a.addr})
+			}
 			return
 		}
 		c.Nontrivial("addr/" + a.class + "/" + a.addr)
@@ -226,7 +230,8 @@ func c19Gen(c *Ctx) {
 
 	// unsupported variables are refused
 	c.Cases("vars", c.N(500, 20000), func(i int, r *rand.Rand) {
-		fixed := []string{"", "client", "client.ip ", " client.ip", "Client.IP", "client.ip.x", "request", "request.", "request.hostx", "request.host.", "request.header", "request.header.", "request.headers.X", "client.port", "request.url", "request.header", "REQUEST.HOST"}
+		fixed := []string{"", "client", "client.ip ", " client.ip", "Client.IP", "client.ip.x", "request", "request.", "request.hostx", "request.host.", "request.header", "request.header.", "request.headers.X", "client.port", "request.url", "request.header", "REQUEST.HOST",
+			"backend.request.header.X-Tenant", " request.header.X-Tenant", "client.ip,request.header.X-Tenant", "request.host+request.header.X-T", "xrequest.header.A", "my.client.ip", "client.ip.request.host", "not.request.host", "request.hostrequest.header.X"}
 		v := pick(r, fixed)
 		if r.IntN(2) == 0 {
 			v = randToken(r, r.IntN(16))
